@@ -22,7 +22,7 @@ RULE = ("an exception is injected at every stage boundary of the three programs 
         "gen_seq: library load, macro parsing, graph assembly, connects, termini, labels, node-link conversion), "
         "before and after the stage, for several exception types, with the output path absent / present with "
         "sentinel content / present together with older '#name.k#' backups, on 2 inputs per program; plus "
-        "naturally failing inputs and fault-free runs. The output directory is hashed before and after. "
+        "naturally failing inputs and fault-free runs; a third of the cases, and every fault-free one a second time, with the directory for temporary files on another device (/dev/shm) than the output. The output directory is hashed before and after. "
         "After every failure that precedes the writing stage a second, successful gen_params run with another "
         "output path follows in the same process and the failed run's directory is hashed again. "
         "Enumerated completely per tier (quick: one exception type for 'after' positions). non-trivial = a fault "
